@@ -87,9 +87,17 @@ func explore(args []string) {
 			}
 		}
 	}
-	for _, v := range res.Fuel {
-		fmt.Printf("FUEL %s\n", v.Detail)
+	for i, v := range res.Fuel {
+		if i < 3 {
+			fmt.Printf("FUEL %s obs=%v\n", v.Detail, v.Observes)
+			if *dump != "" && v.Model != nil {
+				f := filepath.Join(*dump, fmt.Sprintf("fuel%d.json", i))
+				writeJSON(f, buildReplay("X", *entry, v, "X.term", "fuel"))
+				fmt.Println("  replay:", f)
+			}
+		}
 	}
+	fmt.Println("fuel paths:", len(res.Fuel))
 	for _, v := range res.Panics {
 		fmt.Printf("PANIC %s\n", v.Detail)
 	}
